@@ -18,8 +18,9 @@ from .chooser import Chooser
 from .kernel import HarnessError
 
 VERIF = bootstrap.VERIF
-EVIDENCE_DIR = os.path.join(VERIF, "evidence")
-REPLAY_DIR = os.path.join(VERIF, "replays")
+# (overridable so that runs against scratch copies / seeded defects do not overwrite real evidence)
+EVIDENCE_DIR = os.environ.get("VERIF_EVIDENCE_DIR") or os.path.join(VERIF, "evidence")
+REPLAY_DIR = os.environ.get("VERIF_REPLAY_DIR") or os.path.join(VERIF, "replays")
 KNOWN = os.path.join(VERIF, "known_findings.json")
 
 
